@@ -83,6 +83,10 @@ func init() {
 				}
 				rt = append(rt, [2]string{"string", "str:4"}, [2]string{"asset", "asset:4"})
 			}
+			for _, vt := range [][3]string{{"number", "010", "10"}, {"number", "0100", "100"}, {"number", "-010", "-10"}, {"number", "+5", "5"}, {"number", "00", "0"}, {"number", "0x10", ""}, {"number", "0b11", ""}, {"number", "0o17", ""}, {"number", "1_000", ""}, {"number", "08", "8"},
+				{"number", "1e3", ""}, {"number", " 5", ""}, {"monetary", "USD 010", "USD 10"}, {"monetary", "USD -08", "USD -8"}, {"monetary", "USD 0x1f", ""}, {"monetary", "USD 1_0", ""}, {"monetary", "EUR/2 0100", "EUR/2 100"}, {"monetary", "USD  5", ""}} {
+				cases = append(cases, Case{ID: "variable-text " + vt[0] + " " + vt[1], Pkg: "", Fn: "ZZC13VarText", Args: []string{vt[0], vt[1], vt[2]}, Tag: "variable-text-base-ten"})
+			}
 			for _, r := range rt {
 				cases = append(cases, Case{ID: "roundtrip " + r[0] + " " + r[1], Pkg: "", Fn: "ZZC13RoundTrip", Args: []string{r[0], r[1]}, Tag: "metadata-roundtrip"})
 			}
